@@ -49,7 +49,10 @@ ASSUMPTIONS = [
     "the compressor chain is the identity on the folder's content (decompress(compress(s)+flush) = s): C06/C07",
     "midway_failure_not_wrong assumes the per-member digest is injective on the byte strings involved "
     "(Section hypothesis dg_inj; satisfiable: instance with the identity digest); CRC-32 is not injective in general",
-    "dereference=False; modes w/x (append sessions start from the same machine with a non-empty prefix: C08)",
+    "modes w/x (append sessions start from the same machine with a non-empty prefix: C08); under dereference=True a "
+    "symbolic link is presented to the machine as what it points to; members whose ELOOP failure _writeall skips are leaves",
+    "the class of the exception a source raises plays no role (checked here with OSError of several errnos, ValueError, "
+    "RuntimeError and a BaseException subclass at open and at read); only errno ELOOP is looked at, by _writeall",
     "a symbolic link's target is relative, or absolute and not itself an archived source (which _find_link_target would re-base)",
     "writeall is judged as the sequence of its write() calls (members before the failing one stay)",
 ]
@@ -541,6 +544,10 @@ def expected_exc(case):
     f = case["fault"]
     if case["shapes"][case["at"]] == "wall" and f["flavour"] == "missing":
         return "ValueError"       # "specified path does not exist."
+    if f.get("exc", "os") != "os":
+        return EXC_CLASS[f["exc"]].__name__
+    if case["deref"] and case["shapes"][case["at"]] == "wlink" and f["flavour"] == "dangling":
+        return "FileNotFoundError"    # the link is followed by stat()
     return EXC_OF[(f["kind"], f["flavour"])]
 
 
@@ -556,7 +563,10 @@ def judge_property(case, obs):
     # _find_link_target trips over a registered member without origin (writestr/writef)
     linkbug = any(o == "AttributeError" and "as_posix" in m for o, m in zip(obs["outs"], obs["msgs"]))
     # the exception reaches the caller, and it is the injected one
-    if f is not None:
+    if f is not None and swallowed(case):
+        if obs["outs"][at] != "ok":
+            out.append(("writeall-eloop-not-skipped", "raises", "call %d raised %s: %s" % (at, obs["outs"][at], obs["msgs"][at])))
+    elif f is not None:
         got = obs["outs"][at]
         if got == "ok":
             out.append(("write-%s-failure-swallowed" % fk, "swallowed", "call %d returned although its source failed" % at))
@@ -567,8 +577,8 @@ def judge_property(case, obs):
     names = [a for a, _, _ in want_ms]
     datas = [(a, d.hex()) for a, k, d in want_ms if k != "dir"]
     rd = obs["read"]
-    if fk == "read":
-        # weaker clause: never opens successfully with wrong contents
+    if fk == "read" and f["k"] > 0:
+        # weaker clause (bytes of the source were consumed): never opens successfully with wrong contents
         src = {a: d.hex() for a, k, d in names_of(case).values()}
         if rd[0] == "ok":
             for n, hx in rd[2]:
@@ -589,7 +599,7 @@ def judge_property(case, obs):
         return out
     # main clause: every other call returns, the archive holds exactly the members of the calls that returned
     kind = {"none": "write-valid-call-fails", "stat": "write-stat-failure-poisons", "name": "write-rejected-name-poisons",
-            "open": "write-open-failure-poisons"}[fk]
+            "open": "write-open-failure-poisons", "read": "write-read-failure-at-first-byte-poisons"}[fk]
     if linkbug and fk != "open":
         kind = "write-symlink-after-data-member"
     for i, o in enumerate(obs["outs"]):
@@ -686,7 +696,12 @@ def enumerate_cases(tier):
                 idx += 1
                 if n == 5 and idx % 8 != 0:
                     continue        # histories of 5 calls: every eighth (439k sessions do not fit the time limit)
-                yield {"shapes": list(shapes), "at": at, "fault": f, "close": ("ctx", "explicit")[idx % 2],
+                deref = idx % 3 == 0
+                if f is not None and not applicable(shapes, at, f, deref):
+                    deref = not deref
+                    if not applicable(shapes, at, f, deref):
+                        continue
+                yield {"shapes": list(shapes), "at": at, "fault": f, "deref": deref, "close": ("ctx", "explicit")[idx % 2],
                        "target": ("bytesio", "path")[(idx // 2) % 2], "chain": chains[(idx // 4) % len(chains)],
                        "enc": idx % 7 == 0}
 
@@ -694,7 +709,7 @@ def enumerate_cases(tier):
 def case_key(c):
     f = c["fault"]
     return (tuple(c["shapes"]), c["at"], None if f is None else tuple(sorted(f.items())), c["close"], c["target"], c["chain"],
-            c.get("enc", True))
+            c.get("enc", True), c["deref"])
 
 
 def _pool_init():
@@ -705,7 +720,9 @@ def run(ctx):
     rep, tier, model = ctx["rep"], ctx["tier"], ctx["model"]
     rng = random.Random(ctx["seed"])
     rep.cov["rule"] = ("every history of 1..%d calls%s over {write file, write dir, write symlink, writestr, writef BytesIO, "
-                       "writef BufferedIOBase, writeall tree} x (no fault | one fault in call i with at most 2 later calls) x "
+                       "writef BufferedIOBase, writeall of a tree with files, a sub-directory and links to a file and to a directory} x "
+                       "dereference False/True x (no fault | one fault in call i with at most 2 later calls; the injected exception "
+                       "is an OSError, a ValueError, a RuntimeError or a BaseException subclass) x "
                        "the fault menu of the call's shape (stat/lstat raising, source missing, arcname/argument rejected, "
                        "open raising once or for good, file removed after lstat, dangling link, read raising after k bytes once "
                        "or for good, writeall root missing / member failing); close mode, BytesIO/path target and filter "
@@ -722,6 +739,8 @@ def run(ctx):
             c["close"] = rng.choice(["ctx", "explicit"])
             c["target"] = rng.choice(["bytesio", "path"])
             c["enc"] = rng.random() < 0.3
+            if c["fault"] is None or applicable(c["shapes"], c["at"], c["fault"], not c["deref"]):
+                c["deref"] = rng.random() < 0.5 if c["fault"] is None else not c["deref"]
             extra.append(c)
         cases += extra
     per_kind = {}
@@ -738,6 +757,8 @@ def run(ctx):
         rep.count(case_key(case), nontrivial=(f is not None or len(case["shapes"]) > 1))
         rep.dist("history_length", len(case["shapes"]))
         rep.dist("fault", "none" if f is None else "%s/%s%s" % (f["kind"], f["flavour"], "" if f["sticky"] else "/once"))
+        rep.dist("exception_class", "-" if f is None else f.get("exc", "os"))
+        rep.dist("dereference", case["deref"])
         rep.dist("faulted_call_shape", "-" if f is None else case["shapes"][case["at"]])
         rep.dist("later_calls", "-" if f is None else len(case["shapes"]) - 1 - case["at"])
         rep.dist("close/target/chain", "%s/%s/%s" % (case["close"], case["target"], case["chain"]))
@@ -796,10 +817,13 @@ def describe(case):
     f = case["fault"]
     s = " ; ".join(case["shapes"])
     if f is None:
-        return "[%s] no fault (%s,%s,%s)" % (s, case["close"], case["target"], case["chain"])
-    return "[%s] fault in call %d: %s/%s k=%d %s%s (%s,%s,%s)" % (
-        s, case["at"], f["kind"], f["flavour"], f["k"], "for good" if f["sticky"] else "once",
-        " member %d" % f["elem"] if case["shapes"][case["at"]] == "wall" else "", case["close"], case["target"], case["chain"])
+        return "[%s] no fault (%s,%s,%s%s)" % (s, case["close"], case["target"], case["chain"],
+                                               ",dereference" if case["deref"] else "")
+    return "[%s] fault in call %d: %s/%s%s k=%d %s%s (%s,%s,%s%s)" % (
+        s, case["at"], f["kind"], f["flavour"], "" if f.get("exc", "os") == "os" else " raising " + EXC_CLASS[f["exc"]].__name__,
+        f["k"], "for good" if f["sticky"] else "once",
+        " member %d" % f["elem"] if case["shapes"][case["at"]] == "wall" else "", case["close"], case["target"], case["chain"],
+        ",dereference" if case["deref"] else "")
 
 
 def trim(obs):
@@ -815,6 +839,7 @@ def replay(d):
     if not case:
         print(str(r)[:2000])
         return 2
+    case.setdefault("deref", False)
     obs = run_session(case)
     print(describe(case))
     print("calls:", list(zip(obs["outs"], obs["msgs"])))
